@@ -43,6 +43,8 @@ def generic_replay(path):
         print("replay: this file names obligations that no longer check; re-run the check to see them fail")
         return 1
     variant = rp.get("detail", {}).get("variant", "plain")
+    if variant == "plain" and any(l.startswith("pattern ") for l in rp.get("lines", [])):
+        variant = "regex"           # URLPattern commands exist only in the std::regex provider build
     binp, err = lib.build_harness(variant) if variant != "amalg" else lib.build_amalgamated_harness()
     if binp is None:
         print("harness build failed:", err)
